@@ -212,3 +212,218 @@ Section ObjEvents.
     | RStream => []
     end.
 End ObjEvents.
+
+(** ---- [events_to_obj] (common/object.py): the events of one decode back into an object.
+    [_events_to_dict] builds a nested dict/list structure by walking every event's path from the root
+    ([dict.setdefault] for plain nodes, [list_setdefault] for indexed ones); [_to_obj] then converts dicts into
+    instances of the class expected at that place (the class of the root is the type of the first event; below it the
+    declared field types, the command-code maps for the Any-typed areas, the synthesized encrypted class when the first
+    field looks like TPM2B_ENCRYPTED_PARAM), lists element-wise, and returns leaves as they are.  [None] models any
+    Python exception. *)
+Inductive tree :=
+| TLeaf (tn : string) (z : Z)
+| TDict (kvs : list (string * tree))
+| TList (items : list (option tree)).
+
+Fixpoint dict_set {A} (k : string) (v : A) (kvs : list (string * A)) : list (string * A) :=
+  match kvs with
+  | [] => [(k, v)]
+  | (k', v') :: r => if String.eqb k k' then (k, v) :: r else (k', v') :: dict_set k v r
+  end.
+
+Fixpoint list_set {A} (i : nat) (v : A) (l : list A) : list A :=
+  match l, i with
+  | [], _ => []
+  | _ :: r, O => v :: r
+  | x :: r, S j => x :: list_set j v r
+  end.
+
+(** walk [path] below the node [t], creating what is missing; [leaf] is stored at the last node unless something is
+    there already *)
+Fixpoint ins (path : list pnode) (leaf : tree) (t : tree) {struct path} : option tree :=
+  match path with
+  | [] => Some t
+  | n :: rest =>
+      let v0 := match rest with [] => leaf | _ => TDict [] end in
+      match t with
+      | TDict kvs =>
+          match pn_idx n with
+          | None =>
+              match lookupS (pn_name n) kvs with
+              | Some child => match ins rest leaf child with Some c' => Some (TDict (dict_set (pn_name n) c' kvs)) | None => None end
+              | None => match ins rest leaf v0 with Some c' => Some (TDict (dict_set (pn_name n) c' kvs)) | None => None end
+              end
+          | Some i =>
+              match (match lookupS (pn_name n) kvs with Some (TList l) => Some l | None => Some [] | Some _ => None end) with
+              | None => None
+              | Some l =>
+                  if i <? 0 then None
+                  else if i =? Z.of_nat (List.length l) then
+                    match ins rest leaf v0 with Some c' => Some (TDict (dict_set (pn_name n) (TList (l ++ [Some c'])) kvs)) | None => None end
+                  else if i <? Z.of_nat (List.length l) then
+                    match nth (Z.to_nat i) l None with
+                    | Some child => match ins rest leaf child with Some c' => Some (TDict (dict_set (pn_name n) (TList (list_set (Z.to_nat i) (Some c') l)) kvs)) | None => None end
+                    | None => match ins rest leaf v0 with Some c' => Some (TDict (dict_set (pn_name n) (TList (list_set (Z.to_nat i) (Some c') l)) kvs)) | None => None end
+                    end
+                  else None
+              end
+          end
+      | _ => None
+      end
+  end.
+
+Definition is_list_tyid (t : tyid) : bool := match t with TyList _ => true | _ => false end.
+Definition tyid_name (t : tyid) : string := match t with TyN n | TyEnc n | TyList n => n end.
+
+Definition leaf_of (e : event) : tree :=
+  match evalue e with
+  | Some z => TLeaf (tyid_name (ety e)) z
+  | None => if is_list_tyid (ety e) then TList [] else TDict []
+  end.
+
+Fixpoint events_to_dict (evs : list event) (root : tree) : option tree :=
+  match evs with
+  | [] => Some root
+  | e :: r => match ins (epath e) (leaf_of e) root with Some root' => events_to_dict r root' | None => None end
+  end.
+
+Section EventsToObj.
+  Variable T : tables.
+
+  Definition tree_is_empty_dict (t : tree) : bool := match t with TDict [] => true | _ => false end.
+  Definition first_is_zero (kvs : list (string * tree)) : bool :=
+    match kvs with (_, TLeaf _ z) :: _ => z =? 0 | _ => false end.
+
+  (** [TPMS_PARAMS.is_encrypted_params(dict)]: the first value is a dict whose keys are those of TPM2B_ENCRYPTED_PARAM *)
+  Definition looks_encrypted (kvs : list (string * tree)) : bool :=
+    match kvs, t_enc_param T with
+    | (_, TDict sub) :: _, TTpm2bList _ szf buf _ _ =>
+        match map fst sub with
+        | [a; b] => String.eqb a szf && String.eqb b buf
+        | _ => false
+        end
+    | _, _ => false
+    end.
+
+  Definition all_some {A} (l : list (option A)) : option (list A) :=
+    fold_right (fun o acc => match o, acc with Some x, Some r => Some (x :: r) | _, _ => None end) (Some []) l.
+
+  Definition to_list (f : tree -> option value) (t : tree) : option value :=
+    match t with
+    | TList items => match all_some (map (fun o => match o with Some x => f x | None => None end) items) with Some l => Some (VList_ l) | None => None end
+    | TLeaf tn z => Some (VInt_ tn z)
+    | TDict _ => None
+    end.
+
+  (** the TPM2B rule: with a zero size, an empty placeholder dict stands for an absent payload *)
+  Definition tpm2b_fix (zero : bool) (sub : tree) (o : option value) : option (option value) :=
+    if zero && tree_is_empty_dict sub then Some None else match o with Some v => Some (Some v) | None => None end.
+
+  Definition leaf_obj (t : tree) : option value := match t with TLeaf tn z => Some (VInt_ tn z) | _ => None end.
+
+  (** a TPM2B class: the size leaf and the buffer *)
+  Definition to_obj_2b (name szf buf : string) (fbuf : tree -> option value) (kvs : list (string * tree)) : option value :=
+    let zero := first_is_zero kvs in
+    match all_some (map (fun kv =>
+             let o := if String.eqb (fst kv) szf then leaf_obj (snd kv)
+                      else if String.eqb (fst kv) buf then fbuf (snd kv) else None in
+             match tpm2b_fix zero (snd kv) o with Some ov => Some (fst kv, ov) | None => None end) kvs) with
+    | Some vals => Some (VStruct_ (TyN name) vals)
+    | None => None
+    end.
+
+  Definition to_obj_enc (sub : tree) : option value :=
+    match t_enc_param T, sub with
+    | TTpm2bList ename eszf ebuf _ (TPrim _), TDict kvs => to_obj_2b ename eszf ebuf (to_list leaf_obj) kvs
+    | _, _ => None
+    end.
+
+  Fixpoint to_obj_ty (t : ty) (tr : tree) {struct t} : option value :=
+    match tr with
+    | TLeaf tn z => Some (VInt_ tn z)
+    | TList _ => None
+    | TDict kvs =>
+        match t with
+        | TPrim _ => None
+        | TStruct name isp fs =>
+            if looks_encrypted kvs then
+              match fs, kvs with
+              | FPlain n0 _ r, (k0, sub0) :: kvr =>
+                  if String.eqb k0 n0 then
+                    match to_obj_enc sub0, all_some (map (fun kv => match to_obj_fields r (fst kv) (snd kv) with Some v => Some (fst kv, Some v) | None => None end) kvr) with
+                    | Some v0, Some rest => Some (VStruct_ (TyEnc name) ((k0, Some v0) :: rest))
+                    | _, _ => None
+                    end
+                  else None
+              | _, _ => None
+              end
+            else
+              match all_some (map (fun kv => match to_obj_fields fs (fst kv) (snd kv) with Some v => Some (fst kv, Some v) | None => None end) kvs) with
+              | Some vals => Some (VStruct_ (TyN name) vals)
+              | None => None
+              end
+        | TTpm2bList name szf buf szp elem => to_obj_2b name szf buf (to_list (to_obj_ty elem)) kvs
+        | TTpm2bStruct name szf buf szp inner => to_obj_2b name szf buf (to_obj_ty inner) kvs
+        | TUnion name ar =>
+            match all_some (map (fun kv => match to_obj_arms ar (fst kv) (snd kv) with Some v => Some (fst kv, Some v) | None => None end) kvs) with
+            | Some vals => Some (VStruct_ (TyN name) vals)
+            | None => None
+            end
+        end
+    end
+  with to_obj_fields (fs : fields) (k : string) (sub : tree) {struct fs} : option value :=
+    match fs with
+    | FNil => None
+    | FPlain n t r => if String.eqb k n then to_obj_ty t sub else to_obj_fields r k sub
+    | FList n e r => if String.eqb k n then to_list (to_obj_ty e) sub else to_obj_fields r k sub
+    | FUnion n _ u r => if String.eqb k n then to_obj_ty u sub else to_obj_fields r k sub
+    end
+  with to_obj_arms (ar : arms) (k : string) (sub : tree) {struct ar} : option value :=
+    match ar with
+    | ANil => None
+    | ACons n _ p r =>
+        if String.eqb k n then
+          match p with
+          | PNone => leaf_obj sub
+          | PTy t => to_obj_ty t sub
+          | PList e _ => to_list (to_obj_ty e) sub
+          end
+        else to_obj_arms r k sub
+    end.
+
+  (** a message: the Any-typed areas take their class from the command-code maps *)
+  Definition to_obj_msg (tname : string) (handles params : list (Z * ty)) (auth : ty) (cc : option Z) (tr : tree) : option value :=
+    match tr with
+    | TDict kvs =>
+        match all_some (map (fun kv =>
+                 let k := fst kv in let sub := snd kv in
+                 let o := if String.eqb k "handles" then match cc with Some c => match lookupZ c handles with Some t => to_obj_ty t sub | None => None end | None => None end
+                          else if String.eqb k "parameters" then match cc with Some c => match lookupZ c params with Some t => to_obj_ty t sub | None => None end | None => None end
+                          else if String.eqb k "authorizationArea" then to_list (to_obj_ty auth) sub
+                          else leaf_obj sub in
+                 match o with Some v => Some (k, Some v) | None => None end) kvs) with
+        | Some vals => Some (VStruct_ (TyN tname) vals)
+        | None => None
+        end
+    | _ => None
+    end.
+
+  Definition tree_cc (tr : tree) : option Z :=
+    match tr with TDict kvs => match lookupS "commandCode" kvs with Some (TLeaf _ z) => Some z | _ => None end | _ => None end.
+
+  Definition events_to_obj (r : root) (evs : list event) : option value :=
+    match events_to_dict evs (TDict []) with
+    | Some (TDict rootkvs) =>
+        match lookupS "" rootkvs with
+        | Some tr =>
+            match r with
+            | RType t => to_obj_ty t tr
+            | RCommand => to_obj_msg "Command" (cmd_handles T) (cmd_params T) (t_auth_cmd T) (tree_cc tr) tr
+            | RResponse cc _ => to_obj_msg "Response" (rsp_handles T) (rsp_params T) (t_auth_rsp T) cc tr
+            | RStream => None
+            end
+        | None => None
+        end
+    | _ => None
+    end.
+End EventsToObj.
